@@ -13,4 +13,5 @@ TARGETS = {
     "c04_mates": dict(flavours=["seq", "fast"], src=["harness/c04_mates.cpp"], net=1),
     "c04_mates_net0": dict(flavours=["fast"], src=["harness/c04_mates.cpp"], net=0),
     "c03_results": dict(flavours=["seq", "fast"], src=["harness/c03_results.cpp"], net=1),
+    "c14_clearhash": dict(flavours=["seq", "fast"], src=["harness/c14_clearhash.cpp"], net=1),
 }
